@@ -18,7 +18,7 @@ func Run(c *vf.Check) {
 	gs := groups.All()
 	vf.Parallel(len(gs), func(i int) { runGroup(c, gs[i]) })
 	c.Finish("engine E/S: per group, seeds {O,B,g1(Pick),g2(Hash/Embed),dec(5B)}; level-1 closure under Add/Sub/Neg/Mul(s in S(q))/Mul(s,nil); "+
-		"level 2: all Add/Sub pairs over the closure R, Neg, Mul(s,x), associativity triples, (a+b)P, a(bP), Mul(s,nil) vs Mul(s,B). "+
+		"level 2: all Add/Sub pairs over the closure R, Neg, Mul(s,x), associativity triples, (a+b)P, (a-b)P, (-a)P, a(bP), Mul(s,nil) vs Mul(s,B). "+
 		"Every API result is compared (Equal both ways + encoding) with the free-module model value recomputed with Point.Add only; all pairs of R: Equal<=>same vector<=>same bytes. "+
 		"non-trivial = no operand is the identity, no scalar in {0,1}, result vector differs from every operand vector; distinct by (group, expression)",
 		[]string{"generators obtained from Pick/Hash/Embed have no known discrete-log relation (model inequality => group inequality)",
@@ -203,6 +203,16 @@ func runGroup(c *vf.Check, g *groups.G) {
 	for _, a := range R {
 		a := a
 		checked(func() fmod.V { return m.Neg(a) }, a)
+		checked(func() fmod.V {
+			x := m.Decoded(a)
+			x.P.Add(x.P, x.P)
+			return fmod.V{Name: "DoubleInPlace(" + a.Name + ")", P: x.P, Vec: m.VAdd(a.Vec, a.Vec)}
+		}, a)
+		checked(func() fmod.V {
+			x := m.Decoded(a)
+			x.P.Neg(x.P)
+			return fmod.V{Name: "NegInPlace(" + a.Name + ")", P: x.P, Vec: m.VSub(m.VSub(a.Vec, a.Vec), a.Vec)}
+		}, a)
 		for _, b := range R {
 			b := b
 			ab, ok1 := checked(func() fmod.V { return m.Add(a, b) }, a, b)
@@ -217,6 +227,17 @@ func runGroup(c *vf.Check, g *groups.G) {
 				x := m.Decoded(a)
 				x.P.Sub(x.P, b.P)
 				return fmod.V{Name: "SubInPlace(" + a.Name + "," + b.Name + ")", P: x.P, Vec: m.VSub(a.Vec, b.Vec)}
+			}, a, b)
+			// ... the receiver is the second operand, and both
+			checked(func() fmod.V {
+				x := m.Decoded(b)
+				x.P.Add(a.P, x.P)
+				return fmod.V{Name: "AddInPlace2(" + a.Name + "," + b.Name + ")", P: x.P, Vec: m.VAdd(a.Vec, b.Vec)}
+			}, a, b)
+			checked(func() fmod.V {
+				x := m.Decoded(b)
+				x.P.Sub(a.P, x.P)
+				return fmod.V{Name: "SubInPlace2(" + a.Name + "," + b.Name + ")", P: x.P, Vec: m.VSub(a.Vec, b.Vec)}
 			}, a, b)
 			checked(func() fmod.V {
 				x := m.Decoded(a)
@@ -305,6 +326,18 @@ func runGroup(c *vf.Check, g *groups.G) {
 					return fmod.V{Name: "Mul(" + a.Name + "+" + b.Name + "," + p.Name + ")", P: g.Point().Mul(sum, p.P),
 						Vec: m.VMul(new(big.Int).Add(a.V, b.V), p.Vec)}
 				}, p)
+				checked(func() fmod.V {
+					diff := g.Scalar().Sub(m.Sc(a.V), m.Sc(b.V))
+					return fmod.V{Name: "Mul(" + a.Name + "-" + b.Name + "," + p.Name + ")", P: g.Point().Mul(diff, p.P),
+						Vec: m.VMul(new(big.Int).Sub(a.V, b.V), p.Vec)}
+				}, p)
+				if a.Name == b.Name {
+					checked(func() fmod.V {
+						neg := g.Scalar().Neg(m.Sc(a.V))
+						return fmod.V{Name: "Mul(-" + a.Name + "," + p.Name + ")", P: g.Point().Mul(neg, p.P),
+							Vec: m.VMul(new(big.Int).Neg(a.V), p.Vec)}
+					}, p)
+				}
 				checked(func() fmod.V { return m.Add(m.Mul(a, p), m.Mul(b, p)) }, p)
 				checked(func() fmod.V { return m.Mul(a, m.Mul(b, p)) }, p)
 				checked(func() fmod.V {
